@@ -223,10 +223,10 @@ def scan_filter_cases():
     for cur in (b' 1', b'1 ', b'01', b'1_0', b'+1', b'1\n', b'\t0', b'0x1', b''):
         yield mk + [[b'scan', cur], [b'sscan', b'ks', cur], [b'hscan', b'kh', cur, b'count', b'1'], [b'zscan', b'missing', cur]]
     for other in ([], [[b'select', b'1'], [b'set', b'zz1', b'1'], [b'rpush', b'zz2', b'x'], [b'select', b'0']]):
-        yield mk + other + [[b'scan', b'0', b'count', b'100'], [b'swapdb', b'0', b'1'], [b'scan', b'0', b'count', b'100'], [b'scan', b'0', b'type', b'string'],
-                            [b'dbsize'], [b'keys', b'*'], [b'select', b'1'], [b'scan', b'0', b'count', b'100'], [b'scan', b'0', b'match', b'k*', b'type', b'list']]
-        yield mk + other + [[b'scan', b'0'], [b'flushdb'], [b'scan', b'0'], [b'set', b'n1', b'1'], [b'scan', b'0'], [b'del', b'n1'], [b'scan', b'0'], [b'expire', b'ka', b'1'],
-                            ('adv', 2000), [b'scan', b'0', b'count', b'100'], [b'rename', b'kb', b'kbb'], [b'scan', b'0', b'count', b'100'], [b'move', b'kl', b'2'], [b'scan', b'0', b'count', b'100']]
+        yield Always(mk + other + [[b'scan', b'0', b'count', b'100'], [b'swapdb', b'0', b'1'], [b'scan', b'0', b'count', b'100'], [b'scan', b'0', b'type', b'string'],
+                            [b'dbsize'], [b'keys', b'*'], [b'select', b'1'], [b'scan', b'0', b'count', b'100'], [b'scan', b'0', b'match', b'k*', b'type', b'list']])
+        yield Always(mk + other + [[b'scan', b'0'], [b'flushdb'], [b'scan', b'0'], [b'set', b'n1', b'1'], [b'scan', b'0'], [b'del', b'n1'], [b'scan', b'0'], [b'expire', b'ka', b'1'],
+                            ('adv', 2000), [b'scan', b'0', b'count', b'100'], [b'rename', b'kb', b'kbb'], [b'scan', b'0', b'count', b'100'], [b'move', b'kl', b'2'], [b'scan', b'0', b'count', b'100']])
     for cur in (b'0', b'5', b'99', b'-1', b'x'):
         for opts in bad:
             yield mk + [[b'scan', cur] + opts]
@@ -236,17 +236,42 @@ def scan_filter_cases():
         yield [[b'scan', cur, b'foo', b'1']]
 
 
-def run_cases(res, prop, cases, tier, seed, t_end, sample, observers=(), scope=None, versions=(6, 7), label='matrix'):
+class Always(list):
+    """a case that is never dropped by the quick tier's sampling (multi-step scenarios that exist only once in a matrix)"""
+
+
+def _watch_event(case):
+    """connection 99 watches every name that occurs as first or second argument of a command of the case"""
+    names = []
+    for f in case:
+        f = f[2] if isinstance(f, tuple) and f[0] == 'cmd' else f
+        if isinstance(f, list):
+            for a in f[1:3]:
+                if isinstance(a, bytes) and a not in names and len(a) < 40:
+                    names.append(a)
+    return ('cmd', 99, [b'watch'] + (names or [b'k']))
+
+
+def run_cases(res, prop, cases, tier, seed, t_end, sample, observers=(), scope=None, versions=(6, 7), label='matrix', watcher=False):
     rng = random.Random(seed * 31 + zlib.crc32(label.encode()) % 997)
     cases = list(cases)
     if tier == 'quick' and len(cases) > sample:
-        cases = rng.sample(cases, sample)
+        keep = [c for c in cases if isinstance(c, Always)]
+        rest = [c for c in cases if not isinstance(c, Always)]
+        cases = keep + rng.sample(rest, max(0, min(len(rest), sample - len(keep))))
     for case in cases:
         if time.time() > t_end:
             res.notes.append('%s: time budget reached' % label)
             return
         evs = list(OPEN)
-        for f in case:
+        if watcher:
+            evs.append(('open', 99))
+        for j, f in enumerate(case):
+            if watcher and j >= 1 and not (isinstance(f, tuple) and f[0] != 'cmd'):
+                # another client (re-)watches every key before each command: an error reply must leave its transaction state alone
+                if j > 1:
+                    evs.append(('cmd', 99, [b'unwatch']))
+                evs.append(_watch_event(case))
             evs.append(f if isinstance(f, tuple) else ('cmd', 1, list(f)))
         for version in (versions if tier == 'thorough' else (rng.choice(versions),)):
             s, d = Cp.replay_events(evs, version, seed, observers)
